@@ -105,6 +105,25 @@ def device_fmmus(prog, rep, tag):
             d["same-offset"] = any(x[0] in ("arg", "upvar") for x in off)
         ok = ok and all(d.values())
         rep.ob(P, "%s:sm-and-fmmu-same-length%s" % (fn, tag), ok, "the sync manager gets ceil(bits/8) bytes and the FMMU/offset advance uses the same bit length; %s" % d, loc=b.span, how="dataflow")
+    # EEPROM path with an FMMU_EX category: entry i of the category describes FMMU i and names the sync
+    # manager it serves, so the FMMU to program for a sync manager is the *position* of the matching entry
+    # (not the sync manager number stored in it)
+    eb = prog.async_body("configuration::configure_pdos_eeprom")
+    efm = eb.calls_to("configuration::write_fmmu_config")
+    d = {}
+    if len(efm) == 1:
+        r = Prov(eb, follow_all={"Option::map", "Option::unwrap_or_else", "Option::unwrap_or", "From::from", "Option::map_or", "Option::map_or_else"}).of_operand(efm[0].args[2])
+        d["from-position-in-FMMU_EX"] = any(x[0] == "call" and (x[1].endswith("::position") or x[1].endswith("::enumerate") or x[1].endswith("::rposition")) for x in r)
+        value_closures = [x[1] for x in r if x[0] == "closure"]
+        reads = []
+        for g in prog.group("configuration::configure_pdos_eeprom"):
+            if g.is_closure and any(g.short == vc or g.path.endswith(vc) or vc.endswith(g.short) for vc in value_closures):
+                if [a for a in q.field_accesses(g, "FmmuEx", "sync_manager") if a[2] in ("read", "addr")]:
+                    reads.append(g.short)
+        d["not-the-stored-sm-number"] = not reads
+    else:
+        d["one-call"] = False
+    rep.ob(P, "eeprom:fmmu-index-from-FMMU_EX-position" + tag, all(d.values()), "configure_pdos_eeprom programs, for a sync manager listed in FMMU_EX, the FMMU at the position of that entry (falling back to the sync manager index); %s" % d, loc=eb.span, how="dataflow")
     b = prog.async_body("configuration::write_fmmu_config")
     pr = Prov(b)
     inc = b.calls_to("PdiOffset::increment_byte_aligned")
@@ -169,36 +188,95 @@ def reconfigure(prog, rep, tag):
         if not ok:
             # alternative: the SAFE-OP -> PRE-OP transition clears the FMMU registers
             ok = _back_to_pre_op_clears_fmmus(prog, d)
-    # the flag handed in by the callers: false for the first SM using an FMMU in this pass
+    # the flag handed in by the callers: true only for a sync manager whose buffer directly follows the
+    # memory this pass has already mapped through that FMMU (one FMMU maps one contiguous piece of memory)
     if ok and ext and any(v == "pass-local" for v in d.values()):
-        for fn, want in (("configuration::configure_pdos_coe", "flag"), ("configuration::configure_pdos_eeprom", "const-false")):
+        for fn in ("configuration::configure_pdos_coe", "configuration::configure_pdos_eeprom"):
             cb = prog.async_body(fn)
             calls = cb.calls_to("configuration::write_fmmu_config")
             if len(calls) != 1 or len(calls[0].args) < 7:
                 d[fn] = "no-flag-argument"
                 ok = False
                 continue
-            a = calls[0].args[6]
-            if q.const_int(a) == 0:
+            srcs = _bool_sources(cb, calls[0].args[6])
+            if all(k == "const" and v == 0 for (k, v, bi) in srcs) and srcs:
                 d[fn] = "const-false"
                 continue
-            # a bool local: initialised false before the SM loop, set true only after a write_fmmu_config call
-            l = q.local_of(a)
-            defs = [x for x in cb.defs().get(l, [])] if l is not None else []
-            src = None
-            if len(defs) == 1 and defs[0][2] == "assign" and defs[0][3]["rv"]["k"] == "use":
-                src = q.local_of(defs[0][3]["rv"]["a"][0])
-            fl = src if src is not None else l
-            fdefs = cb.defs().get(fl, [])
-            vals = [(x[0], q.const_int(x[3]["rv"]["a"][0]) if x[2] == "assign" and x[3]["rv"]["k"] == "use" else None) for x in fdefs]
-            init0 = [x for x in vals if x[1] == 0]
-            set1 = [x for x in vals if x[1] == 1]
-            good = len(init0) == 1 and len(set1) >= 1 and len(init0) + len(set1) == len(vals)
-            good = good and calls[0].bb not in cb.reachable_strict(init0[0][0]) or (good and cb.dominates(init0[0][0], calls[0].bb) and init0[0][0] not in cb.reachable_strict(calls[0].bb))
-            good = good and all(cb.dominates(calls[0].bb, x[0]) for x in set1)
-            d[fn] = "flag:false-before-loop,true-after-first-write" if good else "flag-not-understood %s" % vals
+            pc = Prov(cb, follow_all={"num::checked_add", "num::wrapping_add", "num::saturating_add"})
+            adj = []
+            for cd in q.conds(cb):
+                if cd.kind == "cmp" and cd.op in ("Eq", "Ne"):
+                    l, r = pc.of_operand(cd.lhs), pc.of_operand(cd.rhs)
+                    for x, y in ((l, r), (r, l)):
+                        if has_root(x, "field", "SyncManagerChannel", "physical_start_address") and not has_root(x, "field", "SyncManagerChannel", "length_bytes") \
+                                and has_root(y, "field", "SyncManagerChannel", "physical_start_address") and has_root(y, "field", "SyncManagerChannel", "length_bytes") \
+                                and any(z[0] in ("call", "via") and z[1].split("::")[-1] in ("checked_add", "wrapping_add", "saturating_add") or (z[0] == "binop" and z[1] == "Add") for z in y) \
+                                and not any(z[0] == "await" and "receive" in z[1] for z in y):
+                            adj.append((cd, cd.true_target() if cd.op == "Eq" else cd.false_target()))
+            good = len(adj) == 1 and bool(srcs)
+            if good:
+                cd, eq_t = adj[0]
+                dom = q.edge_dominated(cb, cd.bb, eq_t)
+                for (k, v, bi) in srcs:
+                    if k == "const" and v == 0:
+                        continue
+                    if k == "const" and v == 1 and bi in dom:
+                        continue
+                    if k == "cmp" and bi == cd.bb:
+                        continue
+                    good = False
+            d[fn] = "true-only-if-buffer-follows-the-mapped-memory" if good else "flag-not-understood %s" % [(k, v) for (k, v, bi) in srcs]
             ok = ok and good
     rep.ob(P, "extend-only-own-mapping" + tag, ok, "an FMMU read back from the device is extended only when this configuration pass wrote it (SAFE-OP -> PRE-OP -> SAFE-OP configures again; stale mappings are replaced); %s" % d, loc=b.span)
+
+
+def _bool_sources(b, op, depth=8):
+    """Where can the bool operand come from: [("const", 0|1, bb) | ("cmp", None, bb) | ("other", what, bb)]."""
+    out = []
+    seen = set()
+
+    def go(o, dep, bi0):
+        c = q.const_int(o)
+        if c is not None:
+            out.append(("const", c, bi0))
+            return
+        pl = op_place(o)
+        if pl is None or dep <= 0:
+            out.append(("other", "?", bi0))
+            return
+        key = (pl["l"], json_key(pl["p"]))
+        if key in seen:
+            return
+        seen.add(key)
+        proj = pl["p"]
+        defs = b.defs().get(pl["l"], [])
+        if not defs:
+            out.append(("other", "no-def", bi0))
+        for (bi, si, kind, payload) in defs:
+            if kind != "assign":
+                out.append(("other", kind, bi))
+                continue
+            rv = payload["rv"]
+            if rv["k"] == "use" or rv["k"] == "cast":
+                src = rv["a"][0]
+                sp = op_place(src)
+                if sp is not None and proj:
+                    src = {"copy": {"l": sp["l"], "p": list(sp["p"]) + list(proj)}}
+                go(src, dep - 1, bi)
+            elif rv["k"] == "agg" and proj and isinstance(proj[0], dict) and "f" in proj[0] and proj[0]["f"] < len(rv.get("a", [])):
+                go(rv["a"][proj[0]["f"]], dep - 1, bi)
+            elif rv["k"] == "bin" and rv["op"] in ("Eq", "Ne") and not proj:
+                out.append(("cmp", None, bi))
+            else:
+                out.append(("other", rv["k"], bi))
+
+    go(op, depth, None)
+    return out
+
+
+def json_key(p):
+    import json
+    return json.dumps(p, sort_keys=True)
 
 
 def _back_to_pre_op_clears_fmmus(prog, d):
